@@ -69,7 +69,7 @@ def rand_http_sig(R):
             val = R.choice(["keep-alive", "close", "gzip, deflate", "text/html,application/xhtml+xml", "Mozilla/5.0 (", "a=b", "", "x", "[x", "x[", "*/*"])
             hs.append("%s=[%s]" % (name, val))
         else:
-            hs.append("")
+            hs.append(R.choice(["", "", "?", "=[x]", "?=[x]", "?=[]", "="]))      # (a token whose NAME is empty is still a header item, not an error)
     absent = ",".join(R.sample(HDR_NAMES, R.randint(0, 3)) + ([R.choice(["\u00dc-Tag", "X-\u212aelvin", "\u0130d", "x-\u00e9t\u00c9"])] if R.random() < 0.1 else []))
     sw = R.choice(["", "Firefox/", "MSIE 8", "Apache", "curl/", "nginx/1.", " Chrom", "M\u00f6z"])
     return ":".join([ver, ",".join(hs), absent, sw])
